@@ -54,6 +54,7 @@ func VerifH_C14_protocol() {
 		switch verifrt.Choice("op", 3) {
 		case 0:
 			Pause("test")
+			verifrt.Settle()
 			paused = true
 			verifrt.Assert(IsPaused(), "C14 Pause sets the paused flag")
 		case 1:
@@ -63,6 +64,7 @@ func VerifH_C14_protocol() {
 				verifrt.Cover("matched-resume")
 			}
 			Resume() // a hang here is a deadlock: reported by the engine
+			verifrt.Settle()
 			verifrt.Assert(!IsPaused(), "C14 after Resume the pipeline is not paused")
 			paused = false
 		case 2:
